@@ -4,6 +4,7 @@ package main
 
 import (
 	"fmt"
+	"os"
 	"sort"
 	"strings"
 )
@@ -214,39 +215,48 @@ func (i *interpreter) concretizeTerm(t *Term, what string, fr *frame) uint64 {
 		}
 		return ts.BV(v, t.sort.w)
 	}
-	for n := 0; ; n++ {
-		if n > i.cfg.MaxConcretize {
-			panic(engineErr{fmt.Sprintf("UNSUPPORTED concretization of %s has more than %d values", what, i.cfg.MaxConcretize)})
-		}
-		if d, ok := c.nextPrefix(); ok {
-			c.taken = append(c.taken, d)
-			switch d.k {
-			case dConcEq:
-				c.addPC(ts.Eq(t, mkc(d.val)))
-				return d.val
-			case dConcNe:
-				c.addPC(ts.Not(ts.Eq(t, mkc(d.val))))
-				continue
-			}
+	if d, ok := c.nextPrefix(); ok {
+		if d.k != dConcEq {
 			panic(engineErr{"non-deterministic re-execution: expected concretization"})
 		}
-		r := i.check()
-		if r != rSat {
-			if r == rUnknown {
-				panic(engineErr{"solver unknown during concretization of " + what})
-			}
-			panic(pathAbort{"assume", "infeasible"})
+		c.taken = append(c.taken, d)
+		c.addPC(ts.Eq(t, mkc(d.val)))
+		return d.val
+	}
+	// enumerate every feasible value now; the others become alternatives
+	var vals []uint64
+	var excl []*Term
+	for {
+		r := i.check(excl...)
+		if r == rUnknown {
+			panic(engineErr{"solver unknown during concretization of " + what})
+		}
+		if r == rUnsat {
+			break
 		}
 		v := i.solver.Values([]*Term{t})[0]
-		eq := ts.Eq(t, mkc(v))
-		if i.check(ts.Not(eq)) != rUnsat {
-			c.alt(decision{dConcNe, v})
+		vals = append(vals, v)
+		excl = append(excl, ts.Not(ts.Eq(t, mkc(v))))
+		if len(vals) > i.cfg.MaxConcretize {
+			panic(engineErr{fmt.Sprintf("UNSUPPORTED concretization of %s in %s has more than %d values", what, originOf(fr), i.cfg.MaxConcretize)})
 		}
-		c.taken = append(c.taken, decision{dConcEq, v})
-		c.addPC(eq)
-		c.nsym++
-		return v
 	}
+	if len(vals) == 0 {
+		panic(pathAbort{"assume", "infeasible"})
+	}
+	sort.Slice(vals, func(a, b int) bool { return vals[a] < vals[b] })
+	for k := len(vals) - 1; k >= 1; k-- {
+		c.alt(decision{dConcEq, vals[k]})
+	}
+	if os.Getenv("VERIF_VERBOSE") != "" {
+		i.results.mu.Lock()
+		i.results.stubs["CONCRETIZE "+what+" @ "+originOf(fr)] += len(vals)
+		i.results.mu.Unlock()
+	}
+	c.taken = append(c.taken, decision{dConcEq, vals[0]})
+	c.addPC(ts.Eq(t, mkc(vals[0])))
+	c.nsym++
+	return vals[0]
 }
 
 // ---------------------------------------------------------------------
